@@ -24,7 +24,7 @@ _ATTR_VALUES: dict[str, list] = {
     "src": ["i.png", "j.png"],
     "alt": [None, "alt"],
     "title": [None, "t"],
-    "href": ["x", "y"],
+    "href": ["x", "y", "z"],
     "meta": [None, 1, 2],
     "id": [1, 2, 3],
     "user": ["u", "v"],
@@ -218,6 +218,21 @@ class DocGen:
                 break
             a = R.choice(opts)
             marks = self.mark_set(R, parent, 0.4 if inline_parent else 0.15)
+            if inline_parent and kids and kids[-1]["m"] and R.bool(0.25):
+                # neighbour variation: same mark types as the previous inline node, one attribute value changed
+                # (adjacent link(x) / link(y)), or one mark dropped
+                prev = [list(m) for m in kids[-1]["m"]]
+                with_attrs = [i for i, m in enumerate(prev) if m[1]]
+                if with_attrs and R.bool(0.7):
+                    i = R.choice(with_attrs)
+                    prev[i] = self.mark(R, prev[i][0])
+                elif len(prev) > 1:
+                    del prev[R.int(0, len(prev) - 1)]
+                cur: list[list] = []
+                for m in prev:
+                    if rs.allows_mark(parent, m[0]):
+                        cur = rm.ref_add(rs, m, cur)
+                marks = cur
             if a == "text":
                 child = mk("text", {}, None, marks, self.text(R))
                 budget -= 2
